@@ -9,7 +9,8 @@ MODEL = ['stubs/mpi_model.c']
 
 def jobs(tier, ws, prop='C16'):
     js = []
-    for np_ in ([2, 3] if tier == 'quick' else [1, 2, 3, 4, 5, 8]):
+    # the single-process path (independent write, no Allreduce) is a different call sequence: not covered by these clauses
+    for np_ in ([2, 3] if tier == 'quick' else [2, 3, 4, 5, 8]):
         for rk in range(np_):
             for xsz in ((4,) if tier == 'quick' else (1, 2, 4, 8)):
                 js.append(Job('%s/fill_var_rec/nprocs%d_rank%d_xsz%d' % (prop, np_, rk, xsz), prop, FL_, 'C16_fill_var_rec.c', enforce='ncmpio_fill.c:fill_var_rec',
